@@ -5,7 +5,7 @@
   shell makes of one command line: `ok argv redirs`, or `expands` / `syntaxError` / `unsupported`.
   `Spec.Ipmitool.*Argv` (Spec/IpmitoolPrint.lean) is the argument vector ipmitool(1) must receive;
   `printRaw`, `ccLine`, `timeoutLine` are what `ipmitool raw` prints.  `build*` / `recv`
-  (Model/Ipmitool.lean) mirror the Python; `intended` is the source with fixes/C19-1..3 applied,
+  (Model/Ipmitool.lean) mirror the Python; `intended` is the source with fixes/C19-1..3 and C19-5 applied,
   `asShipped` the pinned tree.  Which one the tree under test follows is probed on every run.
 
   Command side (every theorem: for ALL strings / numbers / byte lists / targets)
@@ -14,7 +14,11 @@
   * `credentials_single_arguments`— … stated on the specification's vector: `… -U u -P p …`
   * `options_placed_lan`          — interface, host, port, level, cipher, -t -b -T -B, -l, netfn, raw
                                     bytes, `2>&1`: the shell hands ipmitool exactly `lanArgv`
-  * `options_placed_open`, `options_placed_serial`, `options_placed_ping` — the other builders
+  * `options_placed_open`, `options_placed_serial`, `options_placed_ping` — the other builders; the ping
+                                    carries level and cipher too (`-L` left out only for ipmitool's default,
+                                    `ping_effective_level_cipher`: same effective level / suite either way)
+  * `as_shipped_ping_drops_level_and_cipher`, `options_placed_ping_false_as_shipped`,
+    `ping_lanplus_user_17_intended` — the pinned `rmcp_ping` passes neither `-L` nor `-C`
   * `escape_inert`                — the repair changes nothing for strings without `\ " $` and
                                     back-quote (so the strings pinned by the suite stay as they are)
   * `as_shipped_*`                — counter-examples on the pinned tree: a backslash pair is
@@ -118,14 +122,99 @@ theorem options_placed_serial (path iface port baud : Str) (t : Target) (lun net
       ∧ words cmd = .ok argv [] :=
   serial_words path iface port baud t lun netfn raw argv hargv hpath hres hiface hport hbaud
 
-theorem options_placed_ping (path iface host port : Str) (a : Auth) (cr : Option (Str × Str))
+/-- the shell's verdict on the command `rmcp_ping` built -/
+def shOfPing (o : Outcome Str) : Option Result :=
+  match o with
+  | .ok s => some (words s)
+  | _ => none
+
+/-- **Options placed** (presence ping, `rmcp_ping`): interface, host, port, PRIVILEGE LEVEL, CIPHER and
+the credentials reach ipmitool; `-L` is left out exactly when the configured level is ipmitool's own
+default (`ping_effective_level_cipher`: the started program runs at the configured level with the
+configured suite either way). -/
+theorem options_placed_ping (path iface host port : Str) (level : Nat) (c : Cipher) (a : Auth)
+    (cr : Option (Str × Str)) (argv : List Str)
     (hcr : a.toSpec = some cr) (hser : iface ≠ Gen.Ipmitool.pingRefused)
+    (hargv : Spec.Ipmitool.pingArgv (decide (level ≠ 4)) path iface host port level c.toSpec cr = some argv)
     (hpath : PlainWord path) (hres : reserved.contains path = false) (hiface : PlainWord iface)
     (hhost : PlainWord host) (hport : PlainWord port)
+    (hcipher : ∀ tr x, c = .val tr x → PlainWord x)
     (hcred : ∀ u p, a = .password u p → NoNul u ∧ NoNul p) :
-    ∃ cmd, buildPing intended path iface host port a = .ok cmd
-      ∧ words cmd = .ok (Spec.Ipmitool.pingArgv path iface host port cr) [] :=
-  ping_words path iface host port a cr hcr hser hpath hres hiface hhost hport hcred
+    ∃ cmd, buildPing intended path iface host port level c a = .ok cmd ∧ words cmd = .ok argv [] :=
+  ping_words path iface host port level c a cr argv hcr hser hargv hpath hres hiface hhost hport hcipher hcred
+
+/-- Both admitted forms of the ping's vector make ipmitool run at the configured privilege level with
+the configured cipher suite (`none` = ipmitool's built-in suite), whatever the strings are — also a
+user name or password that looks like an option. -/
+theorem ping_effective_level_cipher (spelled : Bool) (path iface host port : Str) (level : Nat)
+    (cipher : Option Str) (cr : Option (Str × Str)) (argv : List Str) (lv : Str)
+    (hlv : Spec.Ipmitool.levelName level = some lv)
+    (h : Spec.Ipmitool.pingArgv spelled path iface host port level cipher cr = some argv) :
+    Spec.Ipmitool.effLevel argv = some lv ∧ Spec.Ipmitool.effCipher argv = cipher := by
+  simp only [Spec.Ipmitool.pingArgv, hlv, Option.bind_eq_bind, Option.bind_some, Option.pure_def,
+    Option.some.injEq] at h
+  subst h
+  rcases cr with _ | ⟨u, p⟩ <;> rcases cipher with _ | x <;> cases spelled <;>
+    by_cases hd : lv = Spec.Ipmitool.defaultLevel <;>
+    simp [Spec.Ipmitool.effLevel, Spec.Ipmitool.effCipher, Spec.Ipmitool.effOpt, Spec.Ipmitool.optScan,
+      Spec.Ipmitool.opt, Spec.Ipmitool.levelArgvD, Spec.Ipmitool.cipherArgv, Spec.Ipmitool.pingCredArgv, hd]
+
+/-- ipmitool -I lanplus -H 10.0.1.1 -p 623, user `u`, password `p`: the ping of a session limited to
+USER with cipher suite 17 -/
+def pingArgv0 (u p : Str) : List Str :=
+  [[105, 112, 109, 105, 116, 111, 111, 108], [45, 73], [108, 97, 110, 112, 108, 117, 115], [45, 72],
+   [49, 48, 46, 48, 46, 49, 46, 49], [45, 112], [54, 50, 51], [45, 76], [85, 83, 69, 82], [45, 67], [49, 55],
+   [45, 85], u, [45, 80], p, [115, 101, 115, 115, 105, 111, 110], [105, 110, 102, 111], [97, 108, 108]]
+
+/-- non-vacuity: level USER, cipher 17 — the specification demands `-L USER -C 17` -/
+example : Spec.Ipmitool.pingArgv (decide (2 ≠ 4)) [105, 112, 109, 105, 116, 111, 111, 108]
+    [108, 97, 110, 112, 108, 117, 115] [49, 48, 46, 48, 46, 49, 46, 49] [54, 50, 51] 2 (some [49, 55])
+    (some ([97], [98])) = some (pingArgv0 [97] [98]) := by decide +kernel
+
+/-- … and the suite's default configuration (ADMINISTRATOR, no cipher) keeps the pinned vector -/
+example : Spec.Ipmitool.pingArgv (decide (4 ≠ 4)) [105, 112, 109, 105, 116, 111, 111, 108] [108, 97, 110]
+    [49, 48, 46, 48, 46, 49, 46, 49] [54, 50, 51] 4 none (some ([97], [98]))
+    = some [[105, 112, 109, 105, 116, 111, 111, 108], [45, 73], [108, 97, 110], [45, 72],
+        [49, 48, 46, 48, 46, 49, 46, 49], [45, 112], [54, 50, 51], [45, 85], [97], [45, 80], [98],
+        [115, 101, 115, 115, 105, 111, 110], [105, 110, 102, 111], [97, 108, 108]] := by decide +kernel
+
+/-- the intended `rmcp_ping` on that configuration: the program receives `pingArgv0` -/
+theorem ping_lanplus_user_17_intended :
+    shOfPing (buildPing intended [105, 112, 109, 105, 116, 111, 111, 108] [108, 97, 110, 112, 108, 117, 115]
+      [49, 48, 46, 48, 46, 49, 46, 49] [54, 50, 51] 2 (.val true [49, 55]) (.password [97] [98]))
+      = some (.ok (pingArgv0 [97] [98]) []) := by decide +kernel
+
+/-- **pinned tree: `rmcp_ping` drops the privilege level and the cipher.**  Configured USER / suite 17,
+the started ipmitool has neither `-L` nor `-C`: it asks for an ADMINISTRATOR session with its built-in
+suite (finding `C19:ping:argv:-L:missing`, `C19:ping:argv:-C:missing`). -/
+theorem as_shipped_ping_drops_level_and_cipher :
+    ∃ argv, shOfPing (buildPing asShipped [105, 112, 109, 105, 116, 111, 111, 108]
+        [108, 97, 110, 112, 108, 117, 115] [49, 48, 46, 48, 46, 49, 46, 49] [54, 50, 51] 2
+        (.val true [49, 55]) (.password [97] [98])) = some (.ok argv [])
+      ∧ argv ≠ pingArgv0 [97] [98]
+      ∧ Spec.Ipmitool.effLevel argv = some Spec.Ipmitool.defaultLevel
+      ∧ Spec.Ipmitool.effLevel (pingArgv0 [97] [98]) = some [85, 83, 69, 82]
+      ∧ Spec.Ipmitool.effCipher argv = none
+      ∧ Spec.Ipmitool.effCipher (pingArgv0 [97] [98]) = some [49, 55] :=
+  ⟨[[105, 112, 109, 105, 116, 111, 111, 108], [45, 73], [108, 97, 110, 112, 108, 117, 115], [45, 72],
+    [49, 48, 46, 48, 46, 49, 46, 49], [45, 112], [54, 50, 51], [45, 85], [97], [45, 80], [98],
+    [115, 101, 115, 115, 105, 111, 110], [105, 110, 102, 111], [97, 108, 108]],
+   by decide +kernel, by decide +kernel, by decide +kernel, by decide +kernel, by decide +kernel,
+   by decide +kernel⟩
+
+/-- so "privilege level and cipher appear as the corresponding options" is false of the pinned ping -/
+theorem options_placed_ping_false_as_shipped :
+    ¬ (∀ (level : Nat) (c : Cipher) (argv : List Str),
+        Spec.Ipmitool.pingArgv (decide (level ≠ 4)) [105, 112, 109, 105, 116, 111, 111, 108]
+          [108, 97, 110, 112, 108, 117, 115] [49, 48, 46, 48, 46, 49, 46, 49] [54, 50, 51] level c.toSpec
+          (some ([97], [98])) = some argv →
+        shOfPing (buildPing asShipped [105, 112, 109, 105, 116, 111, 111, 108]
+          [108, 97, 110, 112, 108, 117, 115] [49, 48, 46, 48, 46, 49, 46, 49] [54, 50, 51] level c
+          (.password [97] [98])) = some (.ok argv [])) := by
+  intro h
+  have := h 2 (.val true [49, 55]) (pingArgv0 [97] [98]) (by decide +kernel)
+  revert this
+  decide +kernel
 
 /-- the repair leaves strings without the four characters untouched -/
 theorem escape_inert (u : Str) (h : ∀ c ∈ u, c ≠ 92 ∧ c ≠ 34 ∧ c ≠ 36 ∧ c ≠ 96) : esc u = u := by
